@@ -98,7 +98,13 @@ where
         false,
     );
 
-    let wrap_err = |e| crate::maybe_with_snippet(e, input, with_snippet, crop_radius);
+    // An error that already carries a snippet was not raised over `input`: the closure made a
+    // call of its own over another text (an embedded document, say) and returns that error.
+    // Its line and column mean nothing here, and its snippet is the right one.
+    let wrap_err = |e: Error| match e {
+        Error::WithSnippet { .. } => e,
+        e => crate::maybe_with_snippet(e, input, with_snippet, crop_radius),
+    };
 
     let value = deserialize_with_scope(&mut src, cfg, f, wrap_err)?;
     enforce_single_document_and_finish(
